@@ -14,6 +14,7 @@ import time
 from concurrent.futures import ThreadPoolExecutor
 
 NSHARDS = 16
+DIV_OPERANDS = {}
 
 
 def _build(drv, profile, extra=None, env=None, target=None):
@@ -32,9 +33,10 @@ def static_info(binary):
     dis = subprocess.run(["objdump", "-d", "--no-show-raw-insn", binary], stdout=subprocess.PIPE, text=True).stdout
     divs = []
     for line in dis.splitlines():
-        m = re.match(r"\s*([0-9a-f]+):\s+(div|idiv)[a-z]*\s", line)
+        m = re.match(r"\s*([0-9a-f]+):\s+(div|idiv)[a-z]*\s+(\S+)", line)
         if m:
             divs.append(m.group(1))
+            DIV_OPERANDS[(binary, m.group(1))] = m.group(3)
     return anchor, divs
 
 
@@ -259,7 +261,7 @@ def analyse(drv, binary, shards, tag):
         # known-finding containment: a listed root only covers the listed functions
         for k in known:
             if fnmatch.fnmatchcase(key, k["key"]):
-                extra = sorted((set(cf) | set(ad)) - k["allowed"])
+                extra = sorted(f for f in (set(cf) | set(ad)) if not any(fnmatch.fnmatchcase(f, g) for g in k["allowed"]))
                 if extra:
                     key = key + ";extra=" + ",".join(extra[:6])
                 break
@@ -295,6 +297,199 @@ def analyse(drv, binary, shards, tag):
     return res
 
 
+def gdb_stage(drv, target, anchor, tier, nvar, seed, lackey_res, shards):
+    """M3: operands of the hardware divisions executed inside compared regions, captured with gdb
+    breakpoints (only for the operations whose regions executed a division in the lackey stage)."""
+    res = {"evaluations": 0, "distinct_nontrivial": 0, "ops": {}, "classes": {}, "violations": [], "inconclusive": [], "mandatory_missing": [],
+           "samples": [], "notes": {}}
+    sites = sorted(lackey_res["notes"].get("hw_division_sites_executed", {}).keys())
+    ops = set()
+    for sh in shards:
+        if "_failed" in sh:
+            continue
+        idx = {e["seq"]: e for e in sh["index"] if "seq" in e}
+        for r in sh["regions"]:
+            if r.get("hw_div") and r["seq"] in idx and idx[r["seq"]]["kind"] != "warm":
+                ops.add(idx[r["seq"]]["op"])
+    res["notes"] = {"division_sites": sites, "operations_executing_divisions": sorted(ops)}
+    if not sites or not ops:
+        res["evaluations"] = 1
+        res["classes"]["no_hw_division_executed_in_any_region"] = 1
+        return res
+    opsfile = os.path.join(drv.OUTDIR, "C01-gdb-ops.txt")
+    with open(opsfile, "w") as f:
+        f.write("\n".join(sorted(ops)))
+    out = os.path.join(drv.OUTDIR, "C01-gdb-hits.jsonl")
+    idxf = os.path.join(drv.OUTDIR, "C01-gdb-index.jsonl")
+    env = dict(drv.ENV)
+    env["CT_DIV_SITES"] = ",".join("%s:%s" % (s_, DIV_OPERANDS.get((target, s_), "?")) for s_ in sites)
+    env["CT_DIV_OUT"] = out
+    env["CT_ANCHOR"] = anchor
+    nm = subprocess.run(["nm", target], stdout=subprocess.PIPE, text=True).stdout
+    for line in nm.splitlines():
+        parts = line.split()
+        if len(parts) == 3 and parts[2] in ("CT_ACTIVE", "CT_SEQ"):
+            env["%s_VADDR" % parts[2]] = parts[0]
+    cmd = ["gdb", "-q", "-batch", "-x", os.path.join(drv.ROOT, "lib", "gdb_div.py"), "--args", target, "run", "--tier", tier, "--variants", str(nvar),
+           "--seed", str(seed), "--shard", "0/1", "--ops-file", opsfile]
+    try:
+        with open(idxf, "w") as fo:
+            p = subprocess.run(cmd, cwd=drv.HARNESS, env=env, stdout=fo, stderr=subprocess.PIPE, text=True, timeout=3600)
+    except subprocess.TimeoutExpired:
+        res["inconclusive"].append("gdb stage: watchdog fired")
+        return res
+    if not os.path.exists(out):
+        res["inconclusive"].append("gdb stage produced no log: %s" % p.stderr[-400:])
+        return res
+    index = {}
+    for l in open(idxf):
+        if l.startswith("{"):
+            try:
+                j = json.loads(l)
+            except ValueError:
+                continue
+            if "seq" in j:
+                index[j["seq"]] = j
+    hits = {}
+    for l in open(out):
+        j = json.loads(l)
+        hits.setdefault(j["seq"], []).append((j["site"], j["rax"], j["rdx"], j["divisor"]))
+    if not index:
+        res["inconclusive"].append("gdb stage: no region index (target did not run): %s" % p.stderr[-400:])
+        return res
+    sym = symbolize(target, sites)
+    base = {}
+    agg = {}
+    nhits = 0
+    for seq in sorted(index):
+        e = index[seq]
+        ck = (e["op"], e["width"], e["public"])
+        h = hits.get(seq, [])
+        nhits += len(h)
+        if e["kind"] == "base":
+            base[ck] = (h, e["secret"])
+            continue
+        if e["kind"] != "var" or ck not in base:
+            continue
+        res["evaluations"] += 1
+        res["ops"][e["op"]] = res["ops"].get(e["op"], 0) + 1
+        bh, bsec = base[ck]
+        if h != bh:
+            first = next((i for i, (a, b) in enumerate(zip(h, bh)) if a != b), min(len(h), len(bh)))
+            site = (h[first] if first < len(h) else bh[first])[0]
+            fn = crate_frames(sym.get(site, []))[0]
+            key = "%s|vary=%s|root=hwdiv:%s" % (e["op"], e.get("vary", "all"), fn)
+            detail = ("operands of a hardware division differ from variant 0 (width %s, public [%s]): hit %d at %s in %s: (rax, rdx, divisor) = %s vs %s; %d vs %d divisions; secret A %s; secret B %s"
+                      % (e["width"], e["public"], first, site, fn, h[first][1:] if first < len(h) else None, bh[first][1:] if first < len(bh) else None, len(h), len(bh),
+                         json.dumps(bsec)[:300], json.dumps(e["secret"])[:300]))
+            a = agg.setdefault(key, {"key": key, "detail": detail, "count": 0, "property": "C01",
+                                     "case": {"op": e["op"], "width": e["width"], "public": e["public"], "secret_a": bsec, "secret_b": e["secret"], "binary": "vrel",
+                                              "vary": e.get("vary", "all"), "monitor": "gdb-div"}})
+            a["count"] += 1
+    res["violations"] = list(agg.values())
+    res["notes"]["division_hits_logged"] = nhits
+    res["classes"]["hw_division_hits"] = nhits
+    return res
+
+
+SANCOV_FLAGS = ("-Cpasses=sancov-module -Cllvm-args=-sanitizer-coverage-level=3 -Cllvm-args=-sanitizer-coverage-trace-pc-guard "
+                "-Cllvm-args=-sanitizer-coverage-trace-divs -Cllvm-args=-sanitizer-coverage-trace-geps "
+                "-Cllvm-args=-sanitizer-coverage-trace-loads -Cllvm-args=-sanitizer-coverage-trace-stores")
+COV_TRIPLE = "x86_64-unknown-linux-gnu"
+
+
+def cov_stage(drv, tier, seed):
+    """M1: SanitizerCoverage build, in-process comparison of many more secret variants per cell."""
+    drv.cargo_build("vrel", package="ct", extra_args=["--features", "cov", "--target", COV_TRIPLE], extra_env={"RUSTFLAGS": SANCOV_FLAGS})
+    target = os.path.join(drv.TARGET, COV_TRIPLE, "vrel", "ct_target")
+    anchor, _ = static_info(target)
+    nvar = 256 if tier == "quick" else 4096
+    res = {"evaluations": 0, "distinct_nontrivial": 0, "ops": {}, "classes": {}, "violations": [], "inconclusive": [], "mandatory_missing": [],
+           "samples": [], "notes": {}}
+
+    def one(i):
+        cmd = [target, "cov", "--tier", tier, "--variants", str(nvar), "--seed", str(seed), "--shard", "%d/%d" % (i, NSHARDS)]
+        try:
+            p = subprocess.run(cmd, cwd=drv.HARNESS, env=drv.ENV, stdout=subprocess.PIPE, stderr=subprocess.PIPE, text=True, timeout=3600)
+        except subprocess.TimeoutExpired:
+            return None, "cov shard %d: watchdog fired" % i
+        if p.returncode != 0:
+            return None, "cov shard %d exited %s: %s" % (i, p.returncode, p.stderr[-400:])
+        return [json.loads(l) for l in p.stdout.splitlines() if l.startswith("{")], None
+
+    with ThreadPoolExecutor(NSHARDS) as ex:
+        outs = list(ex.map(one, range(NSHARDS)))
+    cells = []
+    pcs = set()
+    events = 0
+    aa_ok = 0
+    div_events = 0
+    for lines, err in outs:
+        if err:
+            res["inconclusive"].append(err)
+            continue
+        bias = 0
+        for j in lines:
+            if j.get("header"):
+                bias = j["anchor"] - int(anchor, 16)
+            if "cell" not in j:
+                continue
+            j["_bias"] = bias
+            cells.append(j)
+            if not j["aa_ok"]:
+                res["inconclusive"].append("cov: A/A control failed for %s w=%s %s" % (j["op"], j["width"], j["public"]))
+                continue
+            aa_ok += 1
+            events += j["events"] * j["variants"]
+            div_events += j.get("div_events", 0)
+            res["evaluations"] += j["variants"] - 1
+            res["distinct_nontrivial"] += len(set(j.get("classes", []))) - 1
+            res["ops"][j["op"]] = res["ops"].get(j["op"], 0) + j["variants"] - 1
+            for d in j["diverged"]:
+                for ev in (d.get("event_a"), d.get("event_b")):
+                    if ev:
+                        pcs.add("%x" % (ev["pc"] - bias - 1))
+                for pc in d.get("cf_pcs", []) + d.get("addr_pcs", []):
+                    pcs.add("%x" % (pc - bias - 1))
+    sym = symbolize(target, pcs)
+    known = load_known_c01(drv)
+    agg = {}
+    for j in cells:
+        bias = j["_bias"]
+        for d in j["diverged"]:
+            if d.get("unlocated"):
+                continue
+            cands = ["%x" % (ev["pc"] - bias - 1) for ev in (d.get("event_a"), d.get("event_b")) if ev]
+            roots = sorted(set("%s<%s" % crate_frames(sym.get(a, [])) for a in cands)) or ["?"]
+            incrate = [x for x in roots if not x.startswith(("ct_target::", "core::", "alloc::", "std::", "?"))]
+            root = (incrate or roots)[0]
+            cf = sorted(set(crate_frames(sym.get("%x" % (pc - bias - 1), []))[0] for pc in d.get("cf_pcs", [])))
+            ad = sorted(set(crate_frames(sym.get("%x" % (pc - bias - 1), []))[0] for pc in d.get("addr_pcs", [])))
+            key = "%s|vary=%s|root=%s" % (j["op"], d.get("vary", "all"), root)
+            for k in known:
+                if fnmatch.fnmatchcase(key, k["key"]):
+                    extra = sorted(f for f in (set(cf) | set(ad)) if not any(fnmatch.fnmatchcase(f, g) for g in k["allowed"]))
+                    if extra:
+                        key = key + ";extra=" + ",".join(extra[:6])
+                    break
+            kinds = {1: "edge", 2: "div-operand", 3: "gep-index", 4: "load-address", 5: "store-address"}
+            ea, eb = d.get("event_a") or {}, d.get("event_b") or {}
+            detail = ("IR-level event trace differs from variant 0 (width %s, public [%s]) at event %s (%d vs %d events): A %s %#x, B %s %#x in %s; "
+                      "functions with different event counts: %s; equal counts but different values: %s; division operands differ: %s; secret A %s; secret B %s"
+                      % (j["width"], j["public"], d.get("first_index"), d.get("len_a", 0), d.get("len_b", 0), kinds.get(ea.get("kind")), ea.get("val", 0),
+                         kinds.get(eb.get("kind")), eb.get("val", 0), roots, cf[:12], ad[:12], d.get("div_operands_differ"),
+                         json.dumps(d.get("secret_a"))[:300], json.dumps(d.get("secret_b"))[:300]))
+            a = agg.setdefault(key, {"key": key, "detail": detail, "count": 0, "property": "C01",
+                                     "case": {"op": j["op"], "width": j["width"], "public": j["public"], "secret_a": d.get("secret_a"), "secret_b": d.get("secret_b"),
+                                              "binary": "vrel", "vary": d.get("vary", "all"), "monitor": "sancov", "cf_functions": cf, "addr_functions": ad}})
+            a["count"] += 1
+    res["violations"] = list(agg.values())
+    res["classes"]["cov_cells"] = len(cells)
+    res["classes"]["cov_aa_controls_passed"] = aa_ok
+    res["notes"] = {"cells": len(cells), "variants_per_cell": nvar, "events_compared": events, "ir_division_events_in_base_runs": div_events}
+    return res
+
+
 def c01(drv, prop, tier, seed):
     t0 = time.time()
     results = []
@@ -302,7 +497,10 @@ def c01(drv, prop, tier, seed):
     target, reader = _build(drv, "vrel")
     anchor, divs = static_info(target)
     shards = run_shards(drv, target, reader, tier, nvar, seed, "vrel", anchor=anchor, divs=divs)
-    results.append(("lackey/vrel", analyse(drv, target, shards, "vrel")))
+    lres = analyse(drv, target, shards, "vrel")
+    results.append(("lackey/vrel", lres))
+    results.append(("gdb-div/vrel", gdb_stage(drv, target, anchor, tier, nvar, seed, lres, shards)))
+    results.append(("sancov/vrel", cov_stage(drv, tier, seed)))
     if tier == "thorough":
         target2, reader2 = _build(drv, "vlto")
         anchor2, divs2 = static_info(target2)
